@@ -154,6 +154,37 @@ func (g *Gen) mapGetTv(m tvT, k tvT, env *TEnv) tvT {
 func (g *Gen) rangeStart(x *ssa.Range) {
 	g.fr.val[x] = g.fresh("rangeit", "Int")
 	g.fr.lv[x] = &lval{kind: "range", ref: g.term(x.X), typ: x.X.Type()}
+	mt, ok := x.X.Type().Underlying().(*types.Map)
+	if !ok || g.fr.inl {
+		return
+	}
+	// ghost: the set of keys this iteration has produced so far (seenN(k) in contracts, N = ordinal of the
+	// range statement among the function's map iterations), and the key set when it began
+	ord := 0
+	for _, b := range x.Parent().Blocks {
+		for _, in := range b.Instrs {
+			if r, ok := in.(*ssa.Range); ok {
+				if _, isMap := r.X.Type().Underlying().(*types.Map); isMap {
+					ord++
+					if r == x {
+						goto found
+					}
+				}
+			}
+		}
+	}
+found:
+	ks := g.mapKeySort(mt)
+	name := fmt.Sprintf("L_seen%d", ord)
+	g.comp(name, fmt.Sprintf("(Array %s Bool)", ks))
+	g.cur[name] = g.define("H_"+name, g.comps[name], fmt.Sprintf("((as const (Array %s Bool)) false)", ks))
+	if g.fr.rangeSeen == nil {
+		g.fr.rangeSeen = map[*ssa.Range]string{}
+		g.fr.rangeDom = map[*ssa.Range]string{}
+	}
+	g.fr.rangeSeen[x] = name
+	_, in, _ := g.mapCompNames(x.X.Type())
+	g.fr.rangeDom[x] = g.define("range_dom", fmt.Sprintf("(Array %s Bool)", ks), fmt.Sprintf("(select %s %s)", g.heapGet(in), g.term(x.X)))
 }
 
 func (g *Gen) rangeNext(x *ssa.Next) {
@@ -181,6 +212,17 @@ func (g *Gen) rangeNext(x *ssa.Next) {
 		g.assumeAlways(c)
 	}
 	g.assumeAlways(fmt.Sprintf("(=> %s (and (not (= %s 0)) (select (select %s %s) %s) %s))", ok, m, g.heapGet(in), m, k, g.lt(g.idx(0), fmt.Sprintf("(select %s %s)", g.heapGet(ln), m), true)))
+	if rg, isRange := x.Iter.(*ssa.Range); isRange {
+		if name, have := fr.rangeSeen[rg]; have {
+			// Go's iteration produces each key at most once, and -- when the map's key set is the one it had
+			// when the iteration began (nothing was added or removed) -- stops only after producing every key
+			seen := g.heapGet(name)
+			dom0 := fr.rangeDom[rg]
+			g.assumeAlways(fmt.Sprintf("(=> %s (not (select %s %s)))", ok, seen, k))
+			g.assumeAlways(fmt.Sprintf("(=> (and (not %s) (not (= %s 0)) (= (select %s %s) %s)) (forall ((q_k %s)) (! (=> (select %s q_k) (select %s q_k)) :pattern ((select %s q_k)))))", ok, m, g.heapGet(in), m, dom0, g.mapKeySort(mt), dom0, seen, dom0))
+			g.setComp(name, fmt.Sprintf("(ite %s (store %s %s true) %s)", ok, seen, k, seen))
+		}
+	}
 	// an empty or nil map yields nothing
 	g.assumeAlways(fmt.Sprintf("(=> (or (= %s 0) (= (select %s %s) %s)) (not %s))", m, g.heapGet(ln), m, g.idx(0), ok))
 	fr.tuple[x] = []string{ok, kv, v}
